@@ -10,6 +10,7 @@ import (
 	"context"
 	"crypto/sha256"
 	"fmt"
+	"io"
 	"runtime"
 	"sort"
 	"sync"
@@ -50,6 +51,14 @@ type wDown struct {
 	Hold    int  `json:"hold_part,omitempty"`
 	HoldSet bool `json:"hold,omitempty"`
 	Rep     int  `json:"repetition,omitempty"`
+	// Opt: non-default way to build the download. "" = NewDownloader().Download(); nocdn = WithAllowCDN(false);
+	// allowcdn-noprovider = WithAllowCDN(true), client without CDN transport; allowcdn = WithAllowCDN(true) with a CDN
+	// provider, the file is not on a CDN (the master never redirects); retry-handler = WithRetryHandler(counting handler);
+	// web = Downloader.Web (upload.getWebFile).
+	Opt string `json:"option,omitempty"`
+	// SinkFailAt k >= 1: the k-th Write/WriteAt of the sink fails after taking SinkFailN bytes (0 or half of the block).
+	SinkFailAt int  `json:"sink_fail_at,omitempty"`
+	SinkHalf   bool `json:"sink_fail_takes_half,omitempty"`
 }
 
 type netTimeout struct{}
@@ -96,6 +105,7 @@ type mock struct {
 	answeredOne   sync.Once
 	guardFired    atomic.Bool
 	odd           []string // requests that the API does not allow
+	web           bool
 }
 
 func (m *mock) finalDone() { m.finalOne.Do(func() { close(m.final) }) }
@@ -185,8 +195,27 @@ func (m *mock) UploadGetCDNFileHashes(context.Context, *tg.UploadGetCDNFileHashe
 	return nil, errNotUsed
 }
 
-func (m *mock) UploadGetWebFile(context.Context, *tg.UploadGetWebFileRequest) (*tg.UploadWebFile, error) {
-	return nil, errNotUsed
+func (m *mock) UploadGetWebFile(ctx context.Context, r *tg.UploadGetWebFileRequest) (*tg.UploadWebFile, error) {
+	if !m.web {
+		return nil, errNotUsed
+	}
+	f, err := m.UploadGetFile(ctx, &tg.UploadGetFileRequest{Offset: int64(r.Offset), Limit: r.Limit})
+	if err != nil {
+		return nil, err
+	}
+	uf := f.(*tg.UploadFile)
+	return &tg.UploadWebFile{Size: int(m.size), MimeType: "image/png", FileType: uf.Type, Mtime: uf.Mtime, Bytes: uf.Bytes}, nil
+}
+
+// withCDN adds a CDN transport factory to the mock client; the file is not on a CDN, so it must never be asked.
+type withCDN struct {
+	*mock
+	asked atomic.Int32
+}
+
+func (c *withCDN) CDN(context.Context, int, int64) (downloader.CDN, io.Closer, error) {
+	c.asked.Add(1)
+	return nil, nil, errors.New("mock: no CDN client expected, the master never redirected")
 }
 
 // sink verifies every write against the file. Stream mode appends; parallel mode writes at offsets.
@@ -197,6 +226,25 @@ type sink struct {
 	cover   reffiles.Intervals
 	bad     string
 	written int64
+	failAt  int  // fail the failAt-th write (0: never)
+	half    bool // the failing write takes half of the block first
+	writes  int
+	failed  bool
+}
+
+var errSink = errors.New("sink: no space left on device")
+
+// fail decides whether this write fails; it returns the number of bytes the failing write still takes.
+func (s *sink) fail(n int) (take int, failing bool) {
+	s.writes++
+	if s.failAt == 0 || s.writes != s.failAt {
+		return n, false
+	}
+	s.failed = true
+	if s.half {
+		return n / 2, true
+	}
+	return 0, true
 }
 
 func (s *sink) note(format string, a ...any) {
@@ -208,6 +256,11 @@ func (s *sink) note(format string, a ...any) {
 func (s *sink) Write(p []byte) (int, error) {
 	s.mu.Lock()
 	defer s.mu.Unlock()
+	if take, failing := s.fail(len(p)); failing {
+		// the bytes taken before the error are not accounted: the file is incomplete from here on
+		s.pos += int64(take)
+		return take, errSink
+	}
 	if i := reffiles.Mismatch(seed, s.pos, p); i >= 0 {
 		s.note("stream byte %d differs from the file (write of %d bytes at position %d)", s.pos+int64(i), len(p), s.pos)
 	}
@@ -220,6 +273,9 @@ func (s *sink) Write(p []byte) (int, error) {
 func (s *sink) WriteAt(p []byte, off int64) (int, error) {
 	s.mu.Lock()
 	defer s.mu.Unlock()
+	if take, failing := s.fail(len(p)); failing {
+		return take, errSink
+	}
 	if i := reffiles.Mismatch(seed, off, p); i >= 0 {
 		s.note("byte %d differs from the file (WriteAt of %d bytes at offset %d)", off+int64(i), len(p), off)
 	}
@@ -247,12 +303,39 @@ func evalDownload(w wDown) kit.Result {
 	for _, f := range w.Faults {
 		m.faults[[2]int{f.Part, f.Attempt}] = f.Kind
 	}
-	b := downloader.NewDownloader().WithPartSize(w.PartSize).
-		Download(m, &tg.InputDocumentFileLocation{ID: 33, AccessHash: 3333}).WithThreads(w.Threads)
+	d := downloader.NewDownloader().WithPartSize(w.PartSize)
+	var (
+		client  downloader.Client = m
+		cdnMock *withCDN
+		retried atomic.Int32
+	)
+	switch w.Opt {
+	case "", "web":
+	case "nocdn":
+		d = d.WithAllowCDN(false)
+	case "allowcdn-noprovider":
+		d = d.WithAllowCDN(true)
+	case "allowcdn":
+		d = d.WithAllowCDN(true)
+		cdnMock = &withCDN{mock: m}
+		client = cdnMock
+	case "retry-handler":
+		d = d.WithRetryHandler(func(downloader.RetryEvent) { retried.Add(1) })
+	default:
+		panic("option " + w.Opt)
+	}
+	var b *downloader.Builder
+	if w.Opt == "web" {
+		m.web = true
+		b = d.Web(client, &tg.InputWebFileLocation{URL: "https://verif.invalid/c33.png", AccessHash: 3333})
+	} else {
+		b = d.Download(client, &tg.InputDocumentFileLocation{ID: 33, AccessHash: 3333})
+	}
+	b = b.WithThreads(w.Threads)
 	if w.Verify {
 		b = b.WithVerify(true)
 	}
-	s := &sink{m: m}
+	s := &sink{m: m, failAt: w.SinkFailAt, half: w.SinkHalf}
 	var (
 		typ tg.StorageFileTypeClass
 		err error
@@ -272,6 +355,20 @@ func evalDownload(w wDown) kit.Result {
 	m.mu.Lock()
 	fatal := m.fatal
 	m.mu.Unlock()
+	if w.Opt != "" {
+		pre = w.Opt + ":" + pre
+	}
+	s.mu.Lock()
+	sinkFailed := s.failed
+	s.mu.Unlock()
+	if sinkFailed {
+		// the sink refused a block: the file cannot be complete, so the download must not report success
+		if err != nil {
+			return kit.OKo(pre + w.Mode + "/failed-on-sink-error")
+		}
+		return kit.Bad(pre+"sink-error-swallowed", "write %d of the sink failed (%v) but the download reported success; written ranges %v of a %d-byte file",
+			w.SinkFailAt, errSink, s.cover.Ranges(), w.Size)
+	}
 	if err != nil {
 		if fatal > 0 {
 			// a non-retryable answer was given: failing is a legitimate outcome
@@ -312,7 +409,13 @@ func evalDownload(w wDown) kit.Result {
 	if _, ok := typ.(*tg.StorageFilePng); !ok && m.answers > 0 {
 		return kit.Bad(pre+"type", "every server answer carried storage.filePng, the download reported %v", typ)
 	}
+	if cdnMock != nil && cdnMock.asked.Load() > 0 {
+		return kit.Bad(pre+"cdn-client-without-redirect", "a CDN client was requested although the master never redirected")
+	}
 	out := pre + w.Mode
+	if w.SinkFailAt > 0 {
+		out += "/sink-failure-unreached"
+	}
 	if w.HoldSet {
 		out += "/held-retry"
 		if m.guardFired.Load() {
@@ -378,6 +481,12 @@ func main() {
 			"been written (channel-ordered in the mock, 3 (thorough 8) repetitions). distinct = distinct witnesses. Oracle: no error unless a non-retryable answer was given " +
 			"(then the download either fails or writes exactly the file; success with missing bytes = class fatal-error-swallowed), every written byte equals the file byte at its position, " +
 			"the written ranges are exactly [0,size) with no byte written twice, reported type = the type every answer carried.")
+		c.Rule("(6) options / entry points {WithAllowCDN(false), WithAllowCDN(true) with a client that has no CDN transport, WithAllowCDN(true) with a CDN provider while the master never " +
+			"redirects (no CDN client may be requested), WithRetryHandler, Downloader.Web (upload.getWebFile)} x part size 4 KiB x grid (1) sizes x {stream, parallel 1/3/8} x every single fault of every " +
+			"kind on requests 0..3 + one 3-fault pattern, and WithVerify(true) with single faults (not for web files, which have no hashes): same oracle, classes prefixed <option>:. " +
+			"(7) failing sink: sizes {1, ps+1, 2ps+1, 3ps, 5ps+7} x {stream, parallel 1/2/3/8} x the k-th Write/WriteAt (k = 1..number of blocks) returns an error after taking 0 bytes or half of the " +
+			"block x {no fault, FLOOD_WAIT on request 0, rpc Timeout on the last block} (+ WithVerify(true) without faults). Oracle: a download whose sink refused a block cannot have written the file, so it " +
+			"must not report success (class sink-error-swallowed); any error is accepted.")
 		c.Assume("default goroutine schedule only; the <=2-preemption interleaving part of the plan needs the controlled scheduler and is not covered here; " +
 			"the mock answers requests beyond the end of the file with an empty block; in (5) the enforced order is 'final block written (empty final block: answered) " +
 			"before the held retry is answered'; the few instructions between a worker's hand-over of the final block and its end-of-file signal are not controlled (a miss is possible there, a false alarm is not); a held retry has wall-clock liveness guards (300 ms after the final answer, 3 s overall) that only release the hold - they never fire on the unchanged tree and are not part of any oracle; clock.System is replaced by an instant clock so FLOOD_WAIT does not sleep")
@@ -447,6 +556,50 @@ func main() {
 							}
 							for rp := 0; rp < reps; rp++ {
 								ws = append(ws, wDown{Size: size, PartSize: 4 * kib, Mode: "parallel", Threads: th, Faults: fp, Hold: k, HoldSet: true, Rep: rp})
+							}
+						}
+					}
+				}
+			}
+		}
+		// (6) non-default options and the second entry point (web files): same reader/stream/parallel code behind another schema
+		{
+			optModes := []mt{{"stream", 1}, {"parallel", 1}, {"parallel", 3}, {"parallel", 8}}
+			p := int64(4 * kib)
+			for _, opt := range []string{"nocdn", "allowcdn-noprovider", "allowcdn", "retry-handler", "web"} {
+				for _, size := range []int64{0, 1, p - 1, p, p + 1, 2*p - 1, 2 * p, 2*p + 1, 3 * p} {
+					reqs := int(size/p) + 1
+					if reqs > 4 {
+						reqs = 4
+					}
+					for _, md := range optModes {
+						for _, fp := range faultPatterns(reqs, kinds, 1) {
+							ws = append(ws, wDown{Size: size, PartSize: 4 * kib, Mode: md.mode, Threads: md.th, Faults: fp, Opt: opt})
+						}
+						if size >= p {
+							ws = append(ws, wDown{Size: size, PartSize: 4 * kib, Mode: md.mode, Threads: md.th, Opt: opt,
+								Faults: []fault{{0, 0, "flood"}, {0, 1, "timeout-rpc"}, {1, 0, "timeout-net"}}})
+						}
+						if opt == "web" {
+							continue // web files have no hashes
+						}
+						for _, fp := range faultPatterns(reqs, []string{"flood", "timeout-rpc", "fatal"}, 1) {
+							ws = append(ws, wDown{Size: size, PartSize: 4 * kib, Mode: md.mode, Threads: md.th, Verify: true, Faults: fp, Opt: opt})
+						}
+					}
+				}
+			}
+		}
+		// (7) the sink fails on its k-th write
+		for _, size := range []int64{1, 4*kib + 1, 2*4*kib + 1, 3 * 4 * kib, 5*4*kib + 7} {
+			blocks := int((size + 4*kib - 1) / (4 * kib))
+			for _, md := range []mt{{"stream", 1}, {"parallel", 1}, {"parallel", 2}, {"parallel", 3}, {"parallel", 8}} {
+				for k := 1; k <= blocks; k++ {
+					for _, half := range []bool{false, true} {
+						for _, fp := range [][]fault{nil, {{0, 0, "flood"}}, {{blocks - 1, 0, "timeout-rpc"}}} {
+							ws = append(ws, wDown{Size: size, PartSize: 4 * kib, Mode: md.mode, Threads: md.th, Faults: fp, SinkFailAt: k, SinkHalf: half})
+							if len(fp) == 0 {
+								ws = append(ws, wDown{Size: size, PartSize: 4 * kib, Mode: md.mode, Threads: md.th, Verify: true, SinkFailAt: k, SinkHalf: half})
 							}
 						}
 					}
